@@ -183,7 +183,7 @@ func gaveUp(comp string) bool {
 	return hangs[comp] >= 2
 }
 
-const watchdog = 3 * time.Second
+const watchdog = 10 * time.Second
 
 // Exec runs one case on the real heap package with a per-case watchdog (a consolidation that never
 // returns must end the case with "hang", not stall the run).
